@@ -29,9 +29,11 @@ Templates(x) ==
    K \o <<32, 61, 32, 123, 32, 113, 32, 61, 32>> \o x \o <<44, 32, 114, 46, 115, 32, 61, 32>> \o x \o <<32, 125, 10>>,
    <<97, 46, 98, 32, 61, 32>> \o x \o <<10, 97, 46, 99, 32, 61, 32>> \o x \o <<10>>,
    <<34, 97, 32, 98, 34, 32, 61, 32>> \o x \o <<10, 34, 97, 32, 98, 50, 34, 46, 99, 32, 61, 32>> \o x \o <<10>>}
+\* every date-time spelling the macro has rules for: "T", "t" or a space, "Z" or "z", fractions (no "+" offsets)
+MacroSpellings(v) == IF v.k = "dt" THEN DatetimeSpellings(v) ELSE {ValueText(v)}
 VARIABLES lvl, text
 Init == lvl = 0 /\ text = <<>>
-Next == lvl = 0 /\ lvl' = 1 /\ \E v \in Vals : text' \in Templates(ValueText(v))
+Next == lvl = 0 /\ lvl' = 1 /\ \E v \in Vals : \E x \in MacroSpellings(v) : text' \in Templates(x)
 Spec == Init /\ [][Next]_<<lvl, text>>
 Emit == lvl = 1 => PrintT(ToJson([text |-> text, kind |-> "macro"]))
 Agree == lvl = 1 => ParseDocument(text).res = "ok"
